@@ -667,6 +667,24 @@ pub fn run_transport(cfg: &TransportCfg, sc: &mut Sc) {
         }
     };
     check_nonces(sc, &dirs);
+    // counters far from 0: in half of the scenarios each direction starts just below a power-of-256 boundary (the
+    // sender's counter through the hook, the receiver's through set_receiving_nonce), so that the traffic of the
+    // scenario crosses 2^8, 2^16, 2^32, 2^63 ...
+    if r.chance(1, 2) {
+        for d in 0..2usize {
+            if oneway && d == 1 {
+                continue;
+            }
+            let base: u64 = [0xfe, 0xffff, 0xff_fffe, 0xffff_fffe, 0xffff_ffff, 0x7fff_ffff_ffff_fffe, 0xffff_ffff_ffff_ff00, 1000][r.below(8)];
+            let (w, rd) = if d == 0 { (1u32, 2u32) } else { (2u32, 1u32) };
+            sc.ex.set_send_nonce(w, base);
+            sc.ex.set_recv_nonce(rd, base);
+            dirs[d].send_n = base;
+            dirs[d].recv_n = base;
+            sc.count("t.counters_far_from_zero");
+        }
+        check_nonces(sc, &dirs);
+    }
     let mut oversize_done = false;
     let mut seen_enc: std::collections::BTreeMap<(Vec<u8>, u64), (Vec<u8>, Vec<u8>)> = std::collections::BTreeMap::new();
     for _step in 0..cfg.steps {
@@ -1072,7 +1090,7 @@ pub fn run_stateless(cfg: &TransportCfg, sc: &mut Sc) {
             0 => u64::MAX,
             1 => u64::MAX - 1,
             2 => 0,
-            3 => 1 << (r.below(64) as u64),
+            3 => { let b = 1u64 << (r.below(64) as u64); if r.chance(1, 2) { b } else { b.wrapping_sub(1) } },
             4 => r.next(),
             _ => r.next() % 5,
         };
